@@ -9,6 +9,7 @@ id=$1; prop=$2; out=$3; n=$4; pkg=$5; shift 5
 export GOFLAGS=-mod=mod GOPROXY=off GOSUMDB=off GOTOOLCHAIN=local GIT_CONFIG_GLOBAL=/dev/null
 diff=$out/change$n.diff; [ -f $out/change$n-rebased.diff ] && diff=$out/change$n-rebased.diff
 demo=$(ls $out/demo$n.sh $out/demo$n*_test.go 2>/dev/null | head -1)
+mkdir -p /tmp/mut
 wt=/tmp/mut/confirm-$id
 git -C /repo worktree remove --force $wt 2>/dev/null; rm -rf $wt
 git -C /repo worktree add -q --detach $wt HEAD || exit 2
